@@ -1,0 +1,132 @@
+/*
+ * Licensed to the Apache Software Foundation (ASF) under one
+ * or more contributor license agreements. See the NOTICE file
+ * distributed with this work for additional information
+ * regarding copyright ownership. The ASF licenses this file
+ * to you under the Apache License, Version 2.0 (the  "License");
+ * you may not use this file except in compliance with the License.
+ * You may obtain a copy of the License at
+ *
+ *     http://www.apache.org/licenses/LICENSE-2.0
+ *
+ * Unless required by applicable law or agreed to in writing, software
+ * distributed under the License is distributed on an "AS IS" BASIS,
+ * WITHOUT WARRANTIES OR CONDITIONS OF ANY KIND, either express or implied.
+ * See the License for the specific language governing permissions and
+ * limitations under the License.
+ */
+#if !defined(XPATHCHARACTERS_HEADER_GUARD_1357924680)
+#define XPATHCHARACTERS_HEADER_GUARD_1357924680
+
+
+
+// Base include file.  Must be first.
+#include <xalanc/XPath/XPathDefinitions.hpp>
+
+
+
+#include <xalanc/XalanDOM/XalanDOMString.hpp>
+
+
+
+namespace XALAN_CPP_NAMESPACE {
+
+
+
+/**
+ * The characters of a string, as XPath counts them.  A string is stored
+ * as UTF-16 code units, but "a character in a string is a Unicode
+ * character" (XPath 1.0, sections 3.6 and 4.2): string-length(),
+ * substring() and translate() count, index and map characters, and a
+ * surrogate pair is one character.  A surrogate code unit that is not
+ * part of a pair (a high surrogate that is not followed by a low one, a
+ * low surrogate that is not preceded by a high one) is a character of
+ * its own.
+ */
+struct XPathCharacters
+{
+    typedef XalanDOMString::size_type   size_type;
+
+    static bool
+    isHighSurrogate(XalanDOMChar    theChar)
+    {
+        return 0xD800u <= theChar && theChar <= 0xDBFFu;
+    }
+
+    static bool
+    isLowSurrogate(XalanDOMChar     theChar)
+    {
+        return 0xDC00u <= theChar && theChar <= 0xDFFFu;
+    }
+
+    /**
+     * The number of code units, 1 or 2, of the character that
+     * starts at theChars[0].
+     *
+     * @param theChars  the code units
+     * @param theLength the number of code units, greater than 0
+     */
+    static size_type
+    unitsOfFirst(
+                const XalanDOMChar*     theChars,
+                size_type               theLength)
+    {
+        return theLength > 1 &&
+               isHighSurrogate(theChars[0]) == true &&
+               isLowSurrogate(theChars[1]) == true ? 2 : 1;
+    }
+
+    /**
+     * The number of surrogate pairs in a string.  The number of
+     * characters of the string is its length less this number.
+     */
+    static size_type
+    countPairs(
+                const XalanDOMChar*     theChars,
+                size_type               theLength)
+    {
+        size_type   thePairs = 0;
+
+        for (size_type i = 0; i + 1 < theLength; ++i)
+        {
+            if (isHighSurrogate(theChars[i]) == true &&
+                isLowSurrogate(theChars[i + 1]) == true)
+            {
+                ++thePairs;
+                ++i;
+            }
+        }
+
+        return thePairs;
+    }
+
+    /**
+     * The number of code units that the first theCount characters
+     * of a string occupy (theLength, if the string has fewer
+     * characters).
+     */
+    static size_type
+    unitsOf(
+                const XalanDOMChar*     theChars,
+                size_type               theLength,
+                size_type               theCount)
+    {
+        size_type   i = 0;
+
+        while (theCount > 0 && i < theLength)
+        {
+            i += unitsOfFirst(theChars + i, theLength - i);
+            --theCount;
+        }
+
+        return i;
+    }
+};
+
+
+
+}
+
+
+
+#endif  // XPATHCHARACTERS_HEADER_GUARD_1357924680
